@@ -74,14 +74,27 @@ impl DocumentBuilder {
         self.element_builder = Some(ElementBuilder::new(prefix, name));
     }
 
-    fn prefix(&mut self, prefix: &str, namespace_uri: &str, xot: &mut Xot) {
+    fn prefix(
+        &mut self,
+        prefix: &str,
+        namespace_uri: &str,
+        span: Span,
+        xot: &mut Xot,
+    ) -> Result<(), ParseError> {
         let prefix_id = xot.prefix_lookup.get_id_mut(prefix);
         let namespace_id = xot.namespace_lookup.get_id_mut(namespace_uri);
-        self.element_builder
-            .as_mut()
-            .unwrap()
-            .namespaces
-            .push((prefix_id, namespace_id));
+        let namespaces = &mut self.element_builder.as_mut().unwrap().namespaces;
+        // a namespace declaration is an attribute: it cannot occur twice
+        if namespaces.iter().any(|(seen, _)| *seen == prefix_id) {
+            let attr_name = if prefix.is_empty() {
+                "xmlns".to_string()
+            } else {
+                format!("xmlns:{}", prefix)
+            };
+            return Err(ParseError::DuplicateAttribute(attr_name, span));
+        }
+        namespaces.push((prefix_id, namespace_id));
+        Ok(())
     }
 
     fn attribute(
@@ -697,9 +710,19 @@ impl Xot {
                         span: _,
                     } => {
                         if prefix.as_str() == "xmlns" {
-                            builder.prefix(local.as_str(), value.as_str(), self);
+                            builder.prefix(
+                                local.as_str(),
+                                value.as_str(),
+                                Span::from_prefix_name(prefix, local),
+                                self,
+                            )?;
                         } else if local.as_str() == "xmlns" {
-                            builder.prefix("", value.as_str(), self);
+                            builder.prefix(
+                                "",
+                                value.as_str(),
+                                Span::from_prefix_name(prefix, local),
+                                self,
+                            )?;
                         } else {
                             builder.attribute(prefix, local, value)?;
                         }
